@@ -304,10 +304,15 @@ def transpose(score: ScoreLike, interval: Interval) -> ScoreLike:
     # Reset recursion limit to previous value to avoid side effects
     sys.setrecursionlimit(old_recursion_depth)
     if isinstance(score, s.Score):
-        for part in new_score.parts:
-            transpose(part, interval)
+        new_parts = new_score.parts
     elif isinstance(score, s.Part):
-        for note in score.notes_tied:
+        new_parts = [new_score]
+    else:
+        new_parts = []
+    # transpose every pitched note of the copy (also grace notes and the
+    # later notes of tie chains), never the argument
+    for part in new_parts:
+        for note in part.notes:
             _transpose_note_inplace(note, interval)
     return new_score
 
